@@ -12,6 +12,7 @@
 import Proofs.C06_Parse
 import Proofs.C06_Chain
 import Proofs.C06_Meaning
+import Proofs.C06_Ext7
 namespace Mammoth
 
 /-! ### 1. escapes -/
@@ -185,5 +186,66 @@ example : readStyleMapping S!"br[type='page'] => !" = some ⟨.brk S!"page", .ig
 example : decodeEscapes (c06_printIdent S!"9>|=>'\\ \n\tné") = S!"9>|=>'\\ \n\tné" := by decide
 example : c06_printIdent S!"9>|=>'\\ \n\tné" = S!"\\9\\>\\|\\=\\>\\'\\\\\\ \\n\\tn\\é" := by decide
 example : c06_printString S!"'\\\n x" = S!"'\\'\\\\\\n x'" := by decide
+
+/-! ### 7. the printed text as a line of a style map; attribute keys; list levels -/
+
+/-- The printed text of ANY mapping (expressible or not, whatever the payloads) contains no raw line break:
+    every `\n` of a payload is written as backslash-`n`, so the text is ONE line of a style map. -/
+theorem C06_print_one_line (sp : Bool) (m : c06_Mapping) : '\n' ∉ c06_print sp m :=
+  c06x7_nl_print sp m
+
+example : '\n' ∈ (S!"it's \\ new\nline" : Str) ∧ '\n' ∉ c06_print true c06_ex1 :=
+  ⟨by decide, C06_print_one_line true c06_ex1⟩
+
+/-- The style-map reader (`_read_style_map`: split at line breaks, trim, drop blank and `#` lines, read each
+    line) applied to the printed text of ANY expressible mapping that trimming leaves alone (i.e. whose last
+    identifier does not end in an escaped white-space character — the restriction named in the property) yields
+    exactly that one mapping, with the written meaning, and no warning: payload `\n`, `#`, blanks never split
+    the line, turn it into a comment or drop it. -/
+theorem C06_readStyleMap_print (sp : Bool) (m : c06_Mapping) (hok : c06_expressible m = true)
+    (hstrip : strip (c06_print sp m) = c06_print sp m) :
+    readStyleMap (c06_print sp m) = ([c06_denote m], []) := by
+  obtain ⟨c, r, hcr, hc⟩ := c06x7_print_head sp m
+  have hl : styleLines (c06_print sp m) = [c06_print sp m] := by
+    simp only [styleLines, c06x7_split_one _ (c06x7_nl_print sp m), List.map, hstrip]
+    rw [hcr]
+    simp [startsWith, hc]
+  simp [readStyleMap, hl, C06_read_print sp m hok, unique, uniqueAux]
+
+example : c06_expressible c06_ex1 = true ∧ strip (c06_print true c06_ex1) = c06_print true c06_ex1 := by
+  decide
+
+example : readStyleMap (c06_print true c06_ex1) = ([c06_denote c06_ex1], []) :=
+  C06_readStyleMap_print true c06_ex1 (by decide) (by decide)
+
+/-- the hypothesis is needed: an identifier ending in an escaped blank is cut by the trimming and the line
+    then reads as a different mapping (class `x` instead of `x `) -/
+example : (readStyleMap (c06_print true ⟨.bold, .elems [⟨S!"b", [], [.cls S!"x "], false, none⟩]⟩)).1 ≠
+    [c06_denote ⟨.bold, .elems [⟨S!"b", [], [.cls S!"x "], false, none⟩]⟩] := by decide
+
+/-- An emitted element has attribute `k` iff the written element mentions it: some `[k='…']`, or — for
+    `k = class` — some `.name`.  No other key appears, and none that is written is lost. -/
+theorem C06_attr_absent_iff (k : Str) (e : c06_Elem) :
+    Dict.get? k (c06_denoteElem e).attrs = none ↔ ∀ ev ∈ e.events, c06x7_mentions k ev = false := by
+  rw [C06_attr_value]
+  exact c06x7_attrSpec_none k e.events
+
+example : Dict.get? S!"class" (c06_denoteElem ⟨S!"a", [], [.attr S!"id" S!"x", .cls S!"c"], false, none⟩).attrs ≠ none ∧
+    Dict.get? S!"href" (c06_denoteElem ⟨S!"a", [], [.attr S!"id" S!"x", .cls S!"c"], false, none⟩).attrs = none := by
+  decide
+
+/-- Leading zeros of a written list level do not change the level that is matched: `:ordered-list(007)`
+    means level index `6` like `:ordered-list(7)` (Python's `int("007") == 7`). -/
+theorem C06_level_leading_zero (ds : Str) : levelIndexOf ('0' :: ds) = levelIndexOf ds := by
+  simp only [levelIndexOf, c06x7_digitsToNat_zero]
+
+example : levelIndexOf S!"007" = S!"6" ∧
+    (readStyleMapping S!"p:ordered-list(007) => li").map (·.matcher) =
+      (readStyleMapping S!"p:ordered-list(7) => li").map (·.matcher) := by decide
+
+#print axioms C06_print_one_line
+#print axioms C06_readStyleMap_print
+#print axioms C06_attr_absent_iff
+#print axioms C06_level_leading_zero
 
 end Mammoth
